@@ -220,6 +220,20 @@ class ConcreteSym(BaseSym):
     def prove(self, cond, what=''):
         assert cond, what
 
+    def constrain_eq(self, a, b, tol=1e-6):
+        """Input constraint a == b (a solver assumption in symbolic mode; tolerant on replay, where an irrational model
+        value has been approximated)."""
+        if abs(a - b) > tol * (1 + abs(b)):
+            raise IgnoreAttempt('constraint not met by the replayed values')
+
+    def constrain(self, cond):
+        if not cond:
+            raise IgnoreAttempt('constraint not met by the replayed values')
+
+    def close(self, a, b, tol=1e-6):
+        """Property-side equality: exact in symbolic mode, tolerant on concrete replay."""
+        return abs(a - b) <= tol * (1 + abs(b))
+
 
 class Sym(BaseSym):
     """Creates solver variables; constraints are solver assumptions, not forks."""
@@ -286,6 +300,21 @@ class Sym(BaseSym):
     def values_ns(self):
         return {k: p for k, (_, _, p) in self.inputs.items()}
 
+    def constrain_eq(self, a, b, tol=None):
+        self.constrain(a == b)
+
+    def constrain(self, cond):
+        """Add a symbolic condition as a solver assumption WITHOUT forking (the reachability twin guards vacuity)."""
+        with NoTracing():
+            if isinstance(cond, SymbolicBool):
+                self.space.add(cond.var)
+                return
+        if not cond:
+            raise IgnoreAttempt('constraint false')
+
+    def close(self, a, b, tol=None):
+        return a == b
+
     def model_values(self):
         """A concrete assignment of all inputs satisfying the current path condition."""
         with NoTracing():
@@ -315,7 +344,8 @@ class Sym(BaseSym):
             self.obligations += 1
             t0 = time.time()
             res, backend = portfolio.check_unsat(list(self.space.solver.assertions()), extra=[z3.Not(cond.var)],
-                                                 timeout_s=self.B.get('prove_timeout', 60))
+                                                 timeout_s=self.B.get('prove_timeout', 60), order=self.B.get('prove_order', 'z3'),
+                                                 z3_timeout_s=self.B.get('prove_z3_timeout'))
             self.portfolio_s += time.time() - t0
             self.backends.add(backend)
             if res == 'unsat':
@@ -413,7 +443,12 @@ def explore(harness, bounds=None, timeout=60.0, per_path=20.0, max_paths=10**7, 
                             if len(res['samples']) < n_samples:
                                 res['samples'].append(readable(vals))
                         except Inconclusive:
-                            pass
+                            # the path was feasible (every fork on it was decided sat); only the witness values are missing
+                            for g in newgoals:
+                                res['goals'][g] = 'reached on a feasible path (model extraction timed out)'
+                        except Exception:
+                            for g in newgoals:
+                                res['goals'][g] = 'reached on a feasible path (model extraction failed)'
             except IgnoreAttempt:
                 status = None
                 res['ignored'] += 1
